@@ -3,6 +3,7 @@
 (*  MC_ZCodec.cfg        proof instance: every encoding the contract allows    *)
 (*                       (Lazy = TRUE: a full frame may replace a continuation),*)
 (*                       pipe depth 2, truncation and corruption.              *)
+(*  MC_ZCodec_quick.cfg  the same with indexes 0..1 (quick tier).                 *)
 (*  MC_ZCodec_walk.cfg   the implementation's compacting writer only, pipe     *)
 (*                       depth 1, no damage: its complete labelled state graph *)
 (*                       is walked edge by edge on the real codec (codecsim).  *)
